@@ -1,5 +1,6 @@
 import ChythonModel.Proofs.C15Compose
 import ChythonModel.Proofs.C15Format
+import ChythonModel.Proofs.C15Equivariant
 import ChythonModel.Model.C15CgrTokens
 import ChythonModel.Model.C15Read
 /-!
@@ -247,5 +248,35 @@ theorem cgr_bond_token_spec (b b' : DynBond) (s : String) (h : cgrBondToken b = 
       cases b; cases b'; simp_all
     · cases h'
   · cases h
+
+/-! ## part 5 — consistent renumbering of both sides renumbers the condensed graph -/
+
+/-- **compose_equivariant.** For every injective renumbering `f` applied to both sides (and to the set iteration
+    orders): the result is the renumbered CGR, errors are the same errors. Together with part 1 (order irrelevance)
+    the CGR *as a graph* is a function of the two sides up to the numbering; invariance of `str(cgr)` then rests on
+    the canonical numbering (Morgan) and the writer, which are C01's subject and are checked here at run time
+    (`renumber` stream) rather than proved. -/
+theorem compose_equivariant (f : Nat → Nat) (hf : Function.Injective f) (ls fs cs : List Nat) (r p : Mol) :
+    composeWith (ls.map f) (fs.map f) (cs.map f) (rename f r) (rename f p) =
+      mapExcept (renameCGR f) (composeWith ls fs cs r p) :=
+  composeWith_rename f hf ls fs cs r p
+
+/-- the same for `compose` as the driver runs it (dict iteration order) -/
+theorem compose_equivariant_dict_order (f : Nat → Nat) (hf : Function.Injective f) (r p : Mol) :
+    compose (rename f r) (rename f p) = mapExcept (renameCGR f) (compose r p) :=
+  compose_rename f hf r p
+
+/-- the reaction centre is renumbered with the graph -/
+theorem centre_equivariant (f : Nat → Nat) (hf : Function.Injective f) (h : CGR) (n : Nat) :
+    f n ∈ (renameCGR f h).centerAtoms ↔ n ∈ h.centerAtoms :=
+  center_rename f hf h n
+
+/-- non-trivial instance: ethanol → ethoxide (O–H charge change) renumbered by `n ↦ 2n + 5` -/
+example :
+    let r : Mol := ⟨[(1, {z := 6}), (2, {z := 8})], [(1, [(2, {order := 1})]), (2, [(1, {order := 1})])]⟩
+    let p : Mol := ⟨[(1, {z := 6}), (2, {z := 8, charge := -1})], [(1, [(2, {order := 1})]), (2, [(1, {order := 1})])]⟩
+    (compose r p).toOption.map (·.centerAtoms) = some [2] ∧
+    (compose (rename (fun n => 2 * n + 5) r) (rename (fun n => 2 * n + 5) p)).toOption.map (·.centerAtoms) = some [9] := by
+  decide
 
 end ChythonModel.Props.C15
